@@ -40,6 +40,8 @@ import traceback
 
 VERIF = os.path.dirname(os.path.dirname(os.path.abspath(__file__)))
 KNOWN_FILE = os.path.join(VERIF, "known_findings.json")
+# development aid (never set by registered commands): write evidence / replays of a run against a scratch worktree elsewhere
+OUT = os.environ.get("VERIF_OUT") or VERIF
 EVIDENCE_SCHEMA = "/root/.vp/EVIDENCE.schema.json"
 MAX_VIOLATION_LINES = 20
 
@@ -405,7 +407,7 @@ def main(mod):
     known, fixed = load_known(prop)
     lines, exit_code = [], 0
     known_matched = []
-    rep_dir = os.path.join(VERIF, "replays", prop)
+    rep_dir = os.path.join(OUT, "replays", prop)
     new_sigs = sorted(s for s in viol if s not in known)
     for sig in sorted(viol):
         e = viol[sig]
@@ -474,8 +476,8 @@ def main(mod):
         "assumptions": list(getattr(mod, "ASSUMPTIONS", [])), "wall_s": round(wall, 2),
         "violations": len(new_sigs),
     }
-    os.makedirs(os.path.join(VERIF, "evidence"), exist_ok=True)
-    evp = os.path.join(VERIF, "evidence", prop + ".json")
+    os.makedirs(os.path.join(OUT, "evidence"), exist_ok=True)
+    evp = os.path.join(OUT, "evidence", prop + ".json")
     with open(evp + ".tmp", "w") as f:
         json.dump(ev, f, indent=1)
     os.replace(evp + ".tmp", evp)
